@@ -158,6 +158,8 @@ func main() {
 		}
 		if ovr != "" {
 			os.Setenv("AetherROCAdmin", ovr)
+		} else if r.Intn(3) == 0 {
+			os.Setenv("AetherROCAdmin", "") // present but empty: the default ROC admin group still applies
 		} else {
 			os.Unsetenv("AetherROCAdmin")
 		}
